@@ -477,4 +477,7 @@ package server
 //@ structural C07: calls UDPConn.Close in (*udpSessionEntry).CloseWithErr
 
 // interference: other goroutines (Feed vs. the reply loop vs. the sweeper) may change these between critical sections
+// (connOpen[e] itself is not havocked: sessions are fed by the manager's single receive loop, so
+// no other goroutine installs a socket into e between two critical sections of Feed/initConn;
+// only `closed` and a close of the socket can change under it, which sockInv ties to connOpen)
 //@ monitor udpSessionEntry.connLock: conn, closed
